@@ -36,6 +36,7 @@ type Stats struct {
 	ReachOK      int
 	PanicChecks  int
 	AssertChecks int
+	CacheHits    int
 }
 
 type Finding struct {
@@ -60,6 +61,7 @@ type Options struct {
 	NoMerge       bool
 	Trace         bool
 	ValidateModels int
+	NoSlice       bool
 }
 
 // Engine: one per harness run.
@@ -90,6 +92,8 @@ type Engine struct {
 	deadline  time.Time
 	initNext  ObjID
 	extra     map[string]interface{}
+	varCache  map[*Term][]uint32
+	funIDs    map[string]uint32
 }
 
 type PathModel struct {
@@ -128,6 +132,8 @@ func NewEngine(prog *ssa.Program, opt Options, harness string) *Engine {
 		reachSat:  map[string]bool{},
 		repoPrefix: "github.com/uhppoted/uhppote-core",
 		extra:     map[string]interface{}{},
+		varCache:  map[*Term][]uint32{},
+		funIDs:    map[string]uint32{},
 	}
 	e.sol.Harness = harness
 	if tp := prog.ImportedPackage("time"); tp != nil {
